@@ -60,6 +60,7 @@ func dataConfig(name string) map[string]interface{} {
 }
 
 func judgeC03(c EvalCase) *eng.Fail {
+	resetSteps() // the step budget is per case (parse and evaluation each get a fresh count)
 	p := safeParse([]byte(c.Src))
 	if p.panicked {
 		return eng.F("C03/parse-panic", "parser panicked: %s", p.panicMsg)
